@@ -100,6 +100,8 @@ type c16Service struct {
 	YEnv        *c16YEnv     `json:"yenv,omitempty"`    // whole loads: the YAML form of `environment`
 	YLabels     *c16YEnv     `json:"ylabels,omitempty"` // whole loads: the YAML form of `labels` (sequence `k=v` / `k`, mapping `k: v` / `k:`); replaces Labels
 	ShortFiles  bool         `json:"short_files,omitempty"`
+	// Extends (internal to the layouts, never part of a case): the service inherits `<Extends>` of base/b.yaml
+	Extends string `json:"-"`
 }
 
 type c16Args struct {
@@ -112,6 +114,15 @@ type c16Args struct {
 	// Extra (c16.resolve): also run the second caller, Project.WithServicesEnabled, with and without a name, and on the
 	// already resolved project (`twice`)
 	Extra bool `json:"extra,omitempty"`
+	// Layout (c16.load): where the services are written.  "" = the main file; "include" = inc/compose.yaml, included by
+	// the main file, env / label files under inc/ and listed relative to it; "extends" = every service is inherited with
+	// `extends: {file: base/b.yaml, service: <name>}`, files under base/; "extends-split" = the first half of the
+	// env_file / label_file lists (and, for odd services, `environment` / `labels`) is in the base service, the rest in
+	// the main file (files exist in both directories).  The model is the same in all layouts (`relocation_env/labels`).
+	Layout string `json:"layout,omitempty"`
+	// Methods (c16.load): the second call site — load with SkipResolveEnvironment, then
+	// project.WithServicesEnvironmentResolved(discard) on the loaded project (model: `loadThenResolveY`)
+	Methods bool `json:"methods,omitempty"`
 }
 
 func sp(s string) *string { return &s }
@@ -407,6 +418,9 @@ func c16Yaml(a c16Args) string {
 	b.WriteString("services:\n")
 	for _, s := range a.Services {
 		b.WriteString("  " + s.Name + ":\n    image: img\n")
+		if s.Extends != "" {
+			b.WriteString("    extends:\n      file: base/b.yaml\n      service: " + s.Extends + "\n")
+		}
 		if s.YEnv != nil && s.YEnv.List != nil {
 			b.WriteString("    environment:\n")
 			for _, it := range *s.YEnv.List {
@@ -484,20 +498,96 @@ func c16LoadReq(a c16Args) core.LoadReq {
 		SkipNormalization: a.SkipNormalization, SkipResolveEnvironment: a.SkipResolveEnvironment, DiscardEnvFiles: a.Discard}
 }
 
+func c16LayoutPrefix(layout string) string {
+	switch layout {
+	case "include":
+		return "inc/"
+	case "extends", "extends-split":
+		return "base/"
+	}
+	return ""
+}
+
+// c16Docs: the YAML documents of a layout (path under the root → text); compose.yaml is the file handed to the loader
+func c16Docs(a c16Args) map[string]string {
+	switch a.Layout {
+	case "include":
+		return map[string]string{"compose.yaml": "include:\n  - inc/compose.yaml\n", "inc/compose.yaml": c16Yaml(a)}
+	case "extends", "extends-split":
+		base, main := a, a
+		base.Services, main.Services = nil, nil
+		for i, s := range a.Services {
+			b, m := s, c16Service{Name: s.Name, Extends: s.Name, ShortFiles: s.ShortFiles}
+			if a.Layout == "extends-split" {
+				ne, nl := (len(s.EnvFiles)+1)/2, (len(s.LabelFiles)+1)/2
+				b.EnvFiles, m.EnvFiles = s.EnvFiles[:ne], s.EnvFiles[ne:]
+				b.LabelFiles, m.LabelFiles = s.LabelFiles[:nl], s.LabelFiles[nl:]
+				if i%2 == 0 {
+					m.YEnv, m.YLabels, m.Labels = s.YEnv, s.YLabels, s.Labels
+					b.YEnv, b.YLabels, b.Labels = nil, nil, nil
+				}
+			}
+			base.Services = append(base.Services, b)
+			main.Services = append(main.Services, m)
+		}
+		return map[string]string{"compose.yaml": c16Yaml(main), "base/b.yaml": c16Yaml(base)}
+	}
+	return map[string]string{"compose.yaml": c16Yaml(a)}
+}
+
 func c16RealLoad(a c16Args) any {
-	root, err := c16WriteTree(a.Files)
+	prefix := c16LayoutPrefix(a.Layout)
+	files := a.Files
+	if prefix != "" {
+		files = map[string]c16Node{}
+		for p, nd := range a.Files {
+			files[prefix+p] = nd
+			if a.Layout == "extends-split" {
+				files[p] = nd
+			}
+		}
+	}
+	root, err := c16WriteTree(files)
 	defer c16RemoveTree(root)
 	if err != nil {
 		return map[string]any{"bad": err.Error()}
 	}
-	if err := os.WriteFile(filepath.Join(root, "compose.yaml"), []byte(c16Yaml(a)), 0o644); err != nil {
-		return map[string]any{"bad": err.Error()}
+	for p, text := range c16Docs(a) {
+		if err := os.MkdirAll(filepath.Dir(filepath.Join(root, p)), 0o755); err != nil {
+			return map[string]any{"bad": err.Error()}
+		}
+		if err := os.WriteFile(filepath.Join(root, p), []byte(text), 0o644); err != nil {
+			return map[string]any{"bad": err.Error()}
+		}
 	}
-	p, err := c16LoadReq(a).LoadIn(root)
+	req := c16LoadReq(a)
+	if a.Methods {
+		req.SkipResolveEnvironment = true
+	}
+	p, err := req.LoadIn(root)
+	if err == nil && a.Methods {
+		// the second call site: what a caller of cli.WithoutEnvironmentResolution does later
+		p, err = p.WithServicesEnvironmentResolved(a.Discard)
+	}
 	if err != nil {
 		return map[string]any{"err": c16ErrClass(err)}
 	}
-	return map[string]any{"ok": c16Observe(p, root)}
+	obs := c16Observe(p, root)
+	if prefix != "" {
+		// references as written: the loader has made them relative to the directory of the included / extended file
+		for _, o := range obs {
+			m := o.(map[string]any)
+			for _, f := range m["env_files"].([]any) {
+				fm := f.(map[string]any)
+				fm["path"] = strings.TrimPrefix(fm["path"].(string), prefix)
+			}
+			lfs := m["label_files"].([]any)
+			for i, f := range lfs {
+				lfs[i] = strings.TrimPrefix(f.(string), prefix)
+			}
+		}
+	}
+	return map[string]any{"ok": obs}
 }
 
 // ---------------------------------------------------------------- judges
@@ -560,6 +650,11 @@ type c16OracleArgs struct {
 	ListForm    bool              `json:"list_form"`
 	Discard     bool              `json:"discard"`
 	NoLoad      bool              `json:"no_load,omitempty"`
+	// Sites: also the second call site (load with SkipResolveEnvironment + Project method) and the three layouts in
+	// which the services are written in another directory (included file, extends.file whole / split)
+	Sites bool `json:"sites,omitempty"`
+	// SiteLayout: the one layout run with Sites ("" = all three; the generators rotate)
+	SiteLayout string `json:"site_layout,omitempty"`
 }
 
 func (o c16OracleArgs) toArgs(discard bool) c16Args {
@@ -673,6 +768,19 @@ func c16RealOracle(raw json.RawMessage) any {
 			a.SkipNormalization, a.SkipResolveEnvironment = true, true
 			out["load_seq_only"] = c16RealLoad(a)
 		}
+		if o.Sites {
+			a := o.toArgs(o.Discard)
+			a.Methods = true
+			out["load_methods"] = c16RealLoad(a)
+			for _, layout := range []string{"include", "extends", "extends-split"} {
+				if o.SiteLayout != "" && o.SiteLayout != layout {
+					continue
+				}
+				a := o.toArgs(o.Discard)
+				a.Layout = layout
+				out["load_"+layout] = c16RealLoad(a)
+			}
+		}
 	}
 	return out
 }
@@ -767,7 +875,7 @@ func c16JudgeOracle(args, real, drv json.RawMessage) *core.Verdict {
 		return core.Disagree("malformed spec outcome: " + string(drv))
 	}
 	outs := map[string]c16Out{}
-	for _, via := range []string{"direct", "direct_discard", "load"} {
+	for _, via := range []string{"direct", "direct_discard", "load", "load_methods", "load_include", "load_extends", "load_extends-split"} {
 		raw, ok := r[via]
 		if !ok {
 			continue
@@ -785,7 +893,9 @@ func c16JudgeOracle(args, real, drv json.RawMessage) *core.Verdict {
 			if out.Err == nil {
 				return core.Fail("failing-file-accepted:"+*spec.Err+":"+via, "the specification says the load fails ("+*spec.Err+": a required env file / a label file is missing, or a line of a file fails) but the result is a project")
 			}
-			if *out.Err != *spec.Err {
+			// at the second call site the label files are read before the env files (`second_call_site_fails_iff`: it fails
+			// iff the loader's own resolution fails, possibly with the error of the other phase)
+			if *out.Err != *spec.Err && via != "load_methods" {
 				return core.Fail("failing-file-error-class:"+via+":"+*spec.Err+"/"+*out.Err, "the load must fail as "+*spec.Err+" (first failing file) but fails as "+*out.Err)
 			}
 			continue
@@ -842,7 +952,7 @@ func c16JudgeOracle(args, real, drv json.RawMessage) *core.Verdict {
 			}
 		}
 		// file references: kept as written without discard, dropped with it
-		discard := via == "direct_discard" || (via == "load" && o.Discard)
+		discard := via == "direct_discard" || (strings.HasPrefix(via, "load") && o.Discard)
 		if discard {
 			if len(obs.EnvFiles) != 0 || len(obs.LabelFiles) != 0 {
 				return core.Fail("discard-keeps-file-refs:"+via, "file references survive the discard option")
